@@ -169,6 +169,27 @@ Definition cmd_stream (args_out : list bytes) (script : bytes) : bytes :=
 Definition cmd_out (P : rparams) (deep : bool) (root : evalue) (args : list (list part)) (script : bytes) : bytes :=
   run P (cmd_secrets deep root args) [cmd_stream (cmd_args root args) script].
 
+(* ---- how the command ends.  RunE puts the two redactors in front of esc's stdout and stderr, runs the command and
+        closes both redactors when it returns (deferred), whatever exec.Run reports: exit status 0, a non-zero exit
+        status / any other error after the command has written its output, or a failure to start it at all (nothing
+        written).  What esc forwards is therefore the redaction of everything the command wrote to each stream, and esc
+        itself fails exactly when running the command failed. ---- *)
+Inductive child_end := ChildExit0 | ChildFails | ChildNoStart.
+
+Definition child_wrote (e : child_end) (stream : bytes) : bytes :=
+  match e with ChildNoStart => [] | _ => stream end.
+
+Definition child_failed (e : child_end) : bool := match e with ChildExit0 => false | _ => true end.
+
+(* the scripted command of the correspondence writes [cmd_stream args script] to one stream and [script2] to the other:
+   (forwarded on the first stream, forwarded on the second stream, esc reports an error) *)
+Definition cmd_run (P : rparams) (deep : bool) (root : evalue) (args : list (list part)) (e : child_end)
+    (script script2 : bytes) : bytes * bytes * bool :=
+  let secrets := cmd_secrets deep root args in
+  (run P secrets [child_wrote e (cmd_stream (cmd_args root args) script)],
+   run P secrets [child_wrote e script2],
+   child_failed e).
+
 (* ---- specification vocabulary: [n] is [v] or a value nested in [v] ---- *)
 Inductive subvalue (n : evalue) : evalue -> Prop :=
 | sv_refl : subvalue n n
